@@ -339,6 +339,11 @@ def c12_r6(ctx):
     ctx.saw(f)
     c, S, site = _cycle_set(ctx, f)
     ctx.inst("CircularDependence", f.where(*site))
+    if c is None and not [x for x in calls(f, HS_CONTAINS) + calls(f, HS_INSERT) + calls(f, HS_REMOVE) if "<usize" in ty_of(f, x.args[0])] \
+            and any(l["ty"]["s"].replace(" ", "") in ("std::vec::Vec<bool>", "[bool]", "&mut[bool]", "std::boxed::Box<[bool]>") for l in f.body["locals"]):
+        # the on-stack set kept as one flag per rule instead of a set of indices: a different
+        # representation of the same information, which the rules about the set do not read
+        raise AnalysisError("idiom not recognised: %s keeps no set of open frames but a table of flags" % f.id)
     if c is None:
         ctx.viol((f.id, "cycle-verdict-unguarded"), "CircularDependence is not guarded by a membership test of the on-stack set", f.where(*site))
     else:
@@ -592,9 +597,14 @@ def c12_r9(ctx):
         ok = True
         for o in ao:
             base = o[:-1]
+            io = None
             if is_call(base) and "Index" in base[0][3] and len(base) == 1:
                 ix = f.call_at[base[0][2]]
                 io = f.origins_of_operand(ix.args[1])
+            elif base and base[-1][0] == "index" and base[0][0] == "param" and base[-2:-1] == (("field", "frame_buffer"),):
+                # the table indexed as a slice (`frame_buffer[index]` on `&mut [FrameBufferValue]`)
+                io = f._origins(base[-1][1], (), frozenset())
+            if io is not None:
                 for x in io:
                     if x[0][0] == "param" and len(x) == 1:
                         continue
